@@ -346,19 +346,24 @@ Lemma Tot_init : Tot init.
 Proof. intros a. repeat split. Qed.
 
 (** The step touches server [k] only (and keeps the id list). *)
-Ltac touch t t' k a W :=
-  let Hin := fresh "Hin" in
-  assert (Hin : In k (sids t)) by (apply (w_sids _ W); apply (w_live _ W); assumption);
-  pose proof (srv_sum_upd s_xact t t' k a eq_refl (w_nd_s _ W) Hin) as U1;
-  pose proof (srv_sum_upd s_query t t' k a eq_refl (w_nd_s _ W) Hin) as U2;
-  pose proof (srv_sum_upd s_sent t t' k a eq_refl (w_nd_s _ W) Hin) as U3;
-  pose proof (srv_sum_upd s_recv t t' k a eq_refl (w_nd_s _ W) Hin) as U4;
-  cbn [sv] in U1, U2, U3, U4;
-  rewrite upd_same in U1, U2, U3, U4;
-  specialize (U1 (fun x Hx => upd_other _ _ _ _ Hx)); specialize (U2 (fun x Hx => upd_other _ _ _ _ Hx));
-  specialize (U3 (fun x Hx => upd_other _ _ _ _ Hx)); specialize (U4 (fun x Hx => upd_other _ _ _ _ Hx));
-  unfold term, set_sstate in U1, U2, U3, U4; cbn [s_addr s_xact s_query s_sent s_recv] in U1, U2, U3, U4;
-  cbn [at_]; unfold upd, a_add; eqb_all; cbn [a_xact a_query a_sent a_recv]; repeat split; lia.
+Ltac touch a W :=
+  unfold set_sstate;
+  match goal with
+  | |- context [mkSt ?x1 ?x2 (upd (sv ?t0) ?k ?y) (sids ?t0) ?x3 ?x4 ?atf] =>
+      let t' := fresh "t'" in
+      set (t' := mkSt x1 x2 (upd (sv t0) k y) (sids t0) x3 x4 atf);
+      let Hin := fresh "Hin" in
+      assert (Hin : In k (sids t0)) by (apply (w_sids _ W); apply (w_live _ W); assumption);
+      assert (E1 : sv t' k = y) by (unfold t'; cbn [sv]; apply upd_same);
+      assert (E2 : forall x, x <> k -> sv t' x = sv t0 x) by (intros x Hx; unfold t'; cbn [sv]; apply upd_other; assumption);
+      pose proof (srv_sum_upd s_xact t0 t' k a eq_refl (w_nd_s _ W) Hin E2) as U1;
+      pose proof (srv_sum_upd s_query t0 t' k a eq_refl (w_nd_s _ W) Hin E2) as U2;
+      pose proof (srv_sum_upd s_sent t0 t' k a eq_refl (w_nd_s _ W) Hin E2) as U3;
+      pose proof (srv_sum_upd s_recv t0 t' k a eq_refl (w_nd_s _ W) Hin E2) as U4;
+      rewrite E1 in U1, U2, U3, U4;
+      unfold term in U1, U2, U3, U4; cbn [s_addr s_xact s_query s_sent s_recv] in U1, U2, U3, U4;
+      change (at_ t') with atf; unfold upd, a_add; eqb_all; cbn [a_xact a_query a_sent a_recv]; repeat split; lia
+  end.
 
 Lemma Tot_step cf t o : Wf t -> Own t -> Tot t -> Tot (step cf t o).
 Proof.
@@ -369,22 +374,195 @@ Proof.
         | |- context [match c_held (cl ?t ?c) with _ => _ end] =>
             let Hh := fresh "Hh" in destruct (c_held (cl t c)) eqn:Hh; [apply (o_c2s _ O) in Hh; destruct Hh as [_ [_ Hlive]] |]
         end.
-  4: { match goal with |- context [mkSt _ _ (upd (sv ?t0) ?k ?y) (sids ?t0) _ _ ?atf] =>
-              touch t0 (mkSt (cl t0) (cids t0) (upd (sv t0) k y) (sids t0) (creg t0) (sreg t0) atf) k a W end. }
-  all: try (match goal with |- context [mkSt _ _ (upd (sv ?t0) ?k ?y) (sids ?t0) _ _ ?atf] =>
-              touch t0 (mkSt (cl t0) (cids t0) (upd (sv t0) k y) (sids t0) (creg t0) (sreg t0) atf) k a W end).
-  all: idtac "AFTER TOUCH". Show.
+  all: try match goal with H : c_held (cl _ ?c) = Some ?s |- _ => pose proof (proj2 (proj2 (o_c2s _ O _ _ H))) end.
+  all: try (touch a W).
   all: try (unfold srv_sum in *; cbn [sv sids at_]; unfold upd, a_add; eqb_all;
             cbn [a_xact a_query a_sent a_recv]; repeat split; lia).
-  all: idtac "REMAIN". Show.
   (* ServerConnect *)
   assert (Hn : ~ In s (sids t)) by (rewrite (w_sids _ W); congruence).
-  rewrite !(srv_sum_new _ t _ s a eq_refl Hn (fun x Hx => upd_other _ _ _ _ Hx)).
-  cbn [sv at_]. rewrite upd_same. unfold term. cbn. destruct (a0 =? a); repeat split; lia.
+  match goal with |- context [mkSt ?x1 ?x2 ?svf ?l ?x3 ?x4 ?atf] => set (t' := mkSt x1 x2 svf l x3 x4 atf) end.
+  assert (E2 : forall x, x <> s -> sv t' x = sv t x) by (intros x Hx; unfold t'; cbn [sv]; apply upd_other; assumption).
+  assert (E1 : sv t' s = mkS a0 true true None SLogin 0 0 0 0) by (unfold t'; cbn [sv]; apply upd_same).
+  rewrite !(srv_sum_new _ t t' s a eq_refl Hn E2). rewrite E1. unfold term. cbn. destruct (a0 =? a); repeat split; lia.
 Qed.
 
 Lemma Tot_run cf ops : Tot (run cf ops).
 Proof.
   induction ops as [|o ops IH] using rev_ind; [apply Tot_init|].
   rewrite run_snoc. apply Tot_step; auto using Wf_run, Own_run.
+Qed.
+
+(* ------------------------------------------------------------------ conservation: clients' side = servers' side = history *)
+
+Definition cl_sum (proj : client -> nat) (t : st) : nat := sumf (fun c => proj (cl t c)) (cids t).
+Definition sv_sum (proj : server -> nat) (t : st) : nat := sumf (fun s => proj (sv t s)) (sids t).
+
+Lemma sumf_upd_notin {A} (proj : A -> nat) (f : nat -> A) k y l :
+  ~ In k l -> sumf (fun x => proj (upd f k y x)) l = sumf (fun x => proj (f x)) l.
+Proof.
+  intros Hn. apply sumf_ext. intros x Hx. rewrite upd_other; [reflexivity|]. intros ->. contradiction.
+Qed.
+
+Lemma cl_sum_upd proj t t' k :
+  cids t' = cids t -> NoDup (cids t) -> In k (cids t) -> (forall x, x <> k -> cl t' x = cl t x) ->
+  cl_sum proj t' + proj (cl t k) = cl_sum proj t + proj (cl t' k).
+Proof.
+  intros E ND Hin H. unfold cl_sum. rewrite E.
+  apply (sumf_upd (fun c => proj (cl t c)) (fun c => proj (cl t' c))); auto.
+  intros x Hx. rewrite (H x Hx). reflexivity.
+Qed.
+Lemma sv_sum_upd proj t t' k :
+  sids t' = sids t -> NoDup (sids t) -> In k (sids t) -> (forall x, x <> k -> sv t' x = sv t x) ->
+  sv_sum proj t' + proj (sv t k) = sv_sum proj t + proj (sv t' k).
+Proof.
+  intros E ND Hin H. unfold sv_sum. rewrite E.
+  apply (sumf_upd (fun c => proj (sv t c)) (fun c => proj (sv t' c))); auto.
+  intros x Hx. rewrite (H x Hx). reflexivity.
+Qed.
+
+Lemma cl_sum_step cf t o : Wf t ->
+  cl_sum c_xact (step cf t o) = cl_sum c_xact t + ind (enabled cf t o && is_txn o) /\
+  cl_sum c_query (step cf t o) = cl_sum c_query t + ind (enabled cf t o && is_qry o).
+Proof.
+  intros W. unfold step. destruct (enabled cf t o) eqn:En; [| simpl; lia].
+  destruct o; gd En; unfold apply, exit_client; cbv zeta; cbn [andb is_txn is_qry ind].
+  (* Login: a new id with zero counters *)
+  { assert (Hn : ~ In c (cids t)) by (rewrite (w_cids _ W); tauto).
+    unfold cl_sum. cbn [cl cids]. simpl sumf. rewrite upd_same. cbn [c_xact c_query].
+    rewrite !sumf_upd_notin by assumption. lia. }
+  all: try (unfold cl_sum; cbn [cl cids]; lia).
+  all: match goal with
+       | |- context [mkSt (upd (cl ?t0) ?k ?y) (cids ?t0) ?x1 ?x2 ?x3 ?x4 ?x5] =>
+           set (t' := mkSt (upd (cl t0) k y) (cids t0) x1 x2 x3 x4 x5);
+           assert (Hin : In k (cids t0)) by (apply (w_cids _ W); congruence);
+           assert (E1 : cl t' k = y) by (unfold t'; cbn [cl]; apply upd_same);
+           assert (E2 : forall x, x <> k -> cl t' x = cl t0 x) by (intros x Hx; unfold t'; cbn [cl]; apply upd_other; assumption);
+           pose proof (cl_sum_upd c_xact t0 t' k eq_refl (w_nd_c _ W) Hin E2) as U1;
+           pose proof (cl_sum_upd c_query t0 t' k eq_refl (w_nd_c _ W) Hin E2) as U2;
+           rewrite E1 in U1, U2; cbn [c_xact c_query] in U1, U2; lia
+       end.
+Qed.
+
+Lemma sv_sum_step cf t o : Wf t -> Own t ->
+  sv_sum s_xact (step cf t o) = sv_sum s_xact t + ind (enabled cf t o && is_txn o) /\
+  sv_sum s_query (step cf t o) = sv_sum s_query t + ind (enabled cf t o && is_qry o).
+Proof.
+  intros W O. unfold step. destruct (enabled cf t o) eqn:En; [| simpl; lia].
+  destruct o; gd En; unfold apply, exit_client, set_sstate; cbv zeta; cbn [andb is_txn is_qry ind];
+    try match goal with
+        | |- context [match c_held (cl ?t ?c) with _ => _ end] =>
+            let Hh := fresh "Hh" in destruct (c_held (cl t c)) eqn:Hh
+        end.
+  all: try match goal with H : c_held (cl _ ?c) = Some ?s |- _ => pose proof (proj2 (proj2 (o_c2s _ O _ _ H))) end.
+  all: try (unfold sv_sum; cbn [sv sids]; lia).
+  all: try match goal with
+       | |- context [mkSt ?x1 ?x2 (upd (sv ?t0) ?k ?y) (sids ?t0) ?x3 ?x4 ?x5] =>
+           set (t' := mkSt x1 x2 (upd (sv t0) k y) (sids t0) x3 x4 x5);
+           assert (Hin : In k (sids t0)) by (apply (w_sids _ W); apply (w_live _ W); assumption);
+           assert (E1 : sv t' k = y) by (unfold t'; cbn [sv]; apply upd_same);
+           assert (E2 : forall x, x <> k -> sv t' x = sv t0 x) by (intros x Hx; unfold t'; cbn [sv]; apply upd_other; assumption);
+           pose proof (sv_sum_upd s_xact t0 t' k eq_refl (w_nd_s _ W) Hin E2) as U1;
+           pose proof (sv_sum_upd s_query t0 t' k eq_refl (w_nd_s _ W) Hin E2) as U2;
+           rewrite E1 in U1, U2; cbn [s_xact s_query] in U1, U2; lia
+       end.
+  (* ServerConnect *)
+  assert (Hn : ~ In s (sids t)) by (rewrite (w_sids _ W); congruence).
+  unfold sv_sum. cbn [sv sids]. simpl sumf. rewrite upd_same. cbn [s_xact s_query].
+  rewrite !sumf_upd_notin by assumption. lia.
+Qed.
+
+Lemma conservation cf ops :
+  let t := run cf ops in
+  cl_sum c_xact t = count is_txn (trace cf ops) /\ sv_sum s_xact t = count is_txn (trace cf ops) /\
+  cl_sum c_query t = count is_qry (trace cf ops) /\ sv_sum s_query t = count is_qry (trace cf ops).
+Proof.
+  induction ops as [|o ops IH] using rev_ind; [repeat split|].
+  cbv zeta in *. rewrite run_snoc, trace_snoc, !count_snoc.
+  destruct (cl_sum_step cf (run cf ops) o (Wf_run cf ops)) as [A B].
+  destruct (sv_sum_step cf (run cf ops) o (Wf_run cf ops) (Own_run cf ops)) as [C D]. lia.
+Qed.
+
+(* ------------------------------------------------------------------ monotonicity *)
+
+Lemma atot_le_refl x : atot_le x x.
+Proof. unfold atot_le. lia. Qed.
+Lemma atot_le_trans x y z : atot_le x y -> atot_le y z -> atot_le x z.
+Proof. unfold atot_le. lia. Qed.
+
+Lemma at_mono_step cf t o a : atot_le (at_ t a) (at_ (step cf t o) a).
+Proof.
+  unfold step. destruct (enabled cf t o); [| apply atot_le_refl].
+  destruct o; unfold apply, exit_client; cbv zeta;
+    try match goal with
+        | |- context [match c_held (cl ?t ?c) with _ => _ end] => destruct (c_held (cl t c))
+        end;
+    cbn [at_]; unfold upd, a_add, atot_le; eqb_all; cbn [a_xact a_query a_sent a_recv a_err]; lia.
+Qed.
+
+Lemma at_mono cf ops more a : atot_le (at_ (run cf ops) a) (at_ (run cf (ops ++ more)) a).
+Proof.
+  induction more as [|o more IH] using rev_ind.
+  - rewrite app_nil_r. apply atot_le_refl.
+  - rewrite app_assoc, run_snoc. eapply atot_le_trans; [apply IH | apply at_mono_step].
+Qed.
+
+(** Rows: a client (server) row that exists keeps growing; ids are never re-used. *)
+Lemma crow_mono_step cf t o c : c_phase (cl t c) <> PNone -> crow_le (cl t c) (cl (step cf t o) c).
+Proof.
+  intros Hc. unfold step. destruct (enabled cf t o) eqn:En; [| unfold crow_le; lia].
+  destruct o; gd En; unfold apply, exit_client; cbv zeta; cbn [cl]; unfold upd, crow_le; eqb_all;
+    cbn [c_xact c_query c_err]; try lia; congruence.
+Qed.
+Lemma srow_mono_step cf t o s : s_seen (sv t s) = true -> srow_le (sv t s) (sv (step cf t o) s).
+Proof.
+  intros Hc. unfold step. destruct (enabled cf t o) eqn:En; [| unfold srow_le; lia].
+  destruct o; gd En; unfold apply, exit_client, set_sstate; cbv zeta;
+    try match goal with
+        | |- context [match c_held (cl ?t ?c) with _ => _ end] => destruct (c_held (cl t c))
+        end;
+    cbn [sv]; unfold upd, srow_le; eqb_all; cbn [s_xact s_query s_sent s_recv]; try lia; congruence.
+Qed.
+
+Lemma phase_sticky cf t o c : c_phase (cl t c) <> PNone -> c_phase (cl (step cf t o) c) <> PNone.
+Proof.
+  intros Hc. unfold step. destruct (enabled cf t o) eqn:En; [| assumption].
+  destruct o; gd En; unfold apply, exit_client; cbv zeta; cbn [cl]; unfold upd; eqb_all; cbn [c_phase];
+    try assumption; try congruence.
+Qed.
+Lemma seen_sticky cf t o s : s_seen (sv t s) = true -> s_seen (sv (step cf t o) s) = true.
+Proof.
+  intros Hc. unfold step. destruct (enabled cf t o) eqn:En; [| assumption].
+  destruct o; gd En; unfold apply, exit_client, set_sstate; cbv zeta;
+    try match goal with
+        | |- context [match c_held (cl ?t ?c) with _ => _ end] => destruct (c_held (cl t c))
+        end;
+    cbn [sv]; unfold upd; eqb_all; cbn [s_seen]; try assumption; try congruence.
+Qed.
+
+Lemma phase_sticky_run cf ops more c :
+  c_phase (cl (run cf ops) c) <> PNone -> c_phase (cl (run cf (ops ++ more)) c) <> PNone.
+Proof.
+  intros H. induction more as [|o more IH] using rev_ind; [rewrite app_nil_r; assumption|].
+  rewrite app_assoc, run_snoc. apply phase_sticky. assumption.
+Qed.
+Lemma seen_sticky_run cf ops more s :
+  s_seen (sv (run cf ops) s) = true -> s_seen (sv (run cf (ops ++ more)) s) = true.
+Proof.
+  intros H. induction more as [|o more IH] using rev_ind; [rewrite app_nil_r; assumption|].
+  rewrite app_assoc, run_snoc. apply seen_sticky. assumption.
+Qed.
+
+Lemma rows_mono cf ops more :
+  (forall c, c_phase (cl (run cf ops) c) <> PNone -> crow_le (cl (run cf ops) c) (cl (run cf (ops ++ more)) c)) /\
+  (forall s, s_seen (sv (run cf ops) s) = true -> srow_le (sv (run cf ops) s) (sv (run cf (ops ++ more)) s)).
+Proof.
+  induction more as [|o more IH] using rev_ind.
+  - rewrite app_nil_r. split; intros; [unfold crow_le | unfold srow_le]; lia.
+  - rewrite app_assoc, run_snoc. destruct IH as [IC IS]. split.
+    + intros c Hc. specialize (IC c Hc).
+      pose proof (crow_mono_step cf (run cf (ops ++ more)) o c (phase_sticky_run cf ops more c Hc)).
+      unfold crow_le in *. lia.
+    + intros s Hs. specialize (IS s Hs).
+      pose proof (srow_mono_step cf (run cf (ops ++ more)) o s (seen_sticky_run cf ops more s Hs)).
+      unfold srow_le in *. lia.
 Qed.
